@@ -10,6 +10,7 @@ import (
 	"fmt"
 	"math"
 
+	"github.com/advancedclimatesystems/gonnx/onnx"
 	"github.com/advancedclimatesystems/gonnx/ops/opset13"
 	"gorgonia.org/tensor"
 )
@@ -207,6 +208,66 @@ func splitAxis(t *TJ, k, parts int) []*TJ {
 	return out
 }
 
+// scaleDecodeCase: decoding a large tensor gives, element for element, what decoding its chunks gives
+func scaleDecodeCase(code int32, raw bool, n int) *Case {
+	c := &Case{Kind: "scale", Stream: "scale-decode", Op: "decode", P: map[string]any{"n": n, "pieces": 17, "data_type": code, "raw": raw, "whole_shapes": [][]int{{n}}}}
+	c.Impl = guard(func() *Result {
+		w := codeWidth[code]
+		vals := make([]uint64, n)
+		for i := range vals {
+			vals[i] = uint64(i*2654435761+12345) & ((uint64(1) << (8*uint(w) - 2)) - 1)
+			if code == 9 {
+				vals[i] &= 1
+			}
+			if code == 1 && vals[i]&0x7f800000 == 0x7f800000 || code == 11 && vals[i]&0x7ff0000000000000 == 0x7ff0000000000000 {
+				vals[i] = 1 // keep NaN / Inf payloads out of this stream (covered elsewhere)
+			}
+		}
+		mk := func(v []uint64) *TPJ {
+			t := &TPJ{DataType: code, Dims: []int64{int64(len(v))}}
+			if raw {
+				t.Raw, t.HasRaw = leBytes(v, w), true
+			} else {
+				typedField(t, code, v)
+			}
+			return t
+		}
+		rep := scaleReport{What: "decode", N: n, Pieces: 17}
+		whole, err := onnx.TensorFromProto(mk(vals).proto())
+		if err != nil {
+			return &Result{Status: "error", Msg: "whole tensor: " + err.Error(), ErrKind: "other"}
+		}
+		_, wb, ok := bitsOf(whole)
+		if !ok {
+			return &Result{Status: "error", Msg: "whole tensor: element type not representable", ErrKind: "other"}
+		}
+		var joined []uint64
+		for p := 0; p < 17; p++ {
+			lo, hi := n*p/17, n*(p+1)/17
+			t, err := onnx.TensorFromProto(mk(vals[lo:hi]).proto())
+			if err != nil {
+				return &Result{Status: "error", Msg: "chunk: " + err.Error(), ErrKind: "other"}
+			}
+			_, b, _ := bitsOf(t)
+			joined = append(joined, b...)
+		}
+		if len(joined) != len(wb) {
+			rep.Mismatches = 1
+			rep.First = fmt.Sprintf("sizes differ: %d vs %d", len(wb), len(joined))
+		}
+		for i := 0; i < len(wb) && i < len(joined); i++ {
+			if wb[i] != joined[i] {
+				rep.Mismatches++
+				if rep.First == "" {
+					rep.First = fmt.Sprintf("element %d of %d: whole %#x, from its chunk %#x", i, n, wb[i], joined[i])
+				}
+			}
+		}
+		return &Result{Status: "ok", Extra: rep}
+	})
+	return c
+}
+
 func genScale(e *emitter, prop string, tier string) {
 	sizes := []int{8195, 32771, 65539}
 	if tier == "thorough" {
@@ -216,6 +277,15 @@ func genScale(e *emitter, prop string, tier string) {
 		return seqT(dt, []int{n}, func(i int) float64 { return float64((i*7+o)%m - m/2) })
 	}
 	switch prop {
+	case "C12":
+		for _, n := range append(append([]int{}, sizes...), 257*257, 300*219+5) {
+			for _, code := range []int32{1, 11, 6, 7, 3, 5, 2, 4, 12, 13, 9} {
+				e.emit(scaleDecodeCase(code, true, n))
+				if n <= 65539 {
+					e.emit(scaleDecodeCase(code, false, n))
+				}
+			}
+		}
 	case "C03":
 		for _, n := range sizes {
 			for _, op := range []string{"Add", "Sub", "Mul", "Less", "Equal", "GreaterOrEqual", "And", "Or", "Xor"} {
